@@ -178,7 +178,7 @@ Definition rec_fn (limit : nat) (c : call) (st : list call) : list call * bool :
 Definition record (limit : nat) (o : obj) : option (list call) :=
   option_map fst (visit (rec_fn limit) no_infinity 400 o []).
 Definition fuel_of (it : item) (r : trange) := match_fuel (it_obj it) r.
-Definition pm (p : Z) (it : item) : bool := p =? 1.
+Definition pm (p : Z) (it : item) : bool := (p =? 1) || (p =? 2).
 Definition mk_item (id : Z) (o : obj) : item :=
   {| it_comp := obj_cname o; it_obj := o;
      it_range := match find_time_range (hull_fuel o) o with Some h => h | None => (MInf, PInf) end; it_id := id |}.
@@ -234,7 +234,8 @@ def xml_elem(e):
         return "<C:time-range%s%s/>" % ((' start="%s"' % fmt_dt(e[1])) if e[1] is not None else "",
                                         (' end="%s"' % fmt_dt(e[2])) if e[2] is not None else "")
     if k == "pf":
-        return '<C:prop-filter name="%s"/>' % ("UID" if e[1] == 1 else "X-NONE")
+        # 1: defined on every component of the grammar; 2: defined on every VCALENDAR; 0: defined nowhere
+        return '<C:prop-filter name="%s"/>' % {1: "UID", 2: "VERSION"}.get(e[1], "X-NONE")
     if k == "cf":
         return '<C:comp-filter name="%s">%s</C:comp-filter>' % (e[1], "".join(xml_elem(c) for c in e[2]))
     return '<C:param-filter name="X"/>'
